@@ -65,8 +65,9 @@ def ktDefs (cfg : Kotlin.Cfg) : RustItem → List (Str × Str)
     ((structVariantsOf e).map fun p => (ktStructKw p.2, cfg.pfx ++ (e.id.renamed ++ p.1.original ++ s%"Inner"))) ++
     [(if e.keys.isNone then s%"enum class " else s%"sealed class ", cfg.pfx ++ e.id.renamed)]
   | .alias a =>
+    -- (the `typealias` is named after `id.renamed` since the `fix:` commit b182a80; was `id.original`)
     if Kotlin.isInline a.decorators then [(s%"value class ", cfg.pfx ++ a.id.renamed)]
-    else [(s%"typealias ", cfg.pfx ++ a.id.original)]
+    else [(s%"typealias ", cfg.pfx ++ a.id.renamed)]
   | .const _ => []
 
 /-- Swift: names that are Swift keywords are printed inside back-ticks (`Swift.kw`) -/
@@ -80,7 +81,8 @@ def swDefs (cfg : Swift.Cfg) : RustItem → List (Str × Str)
   | .const _ => []
 
 /-- Scala: a struct without fields is a plain `class`; an enum is a sealed trait plus its companion
-object; aliases are named after `id.original`; consts are not supported -/
+object; aliases are named after `id.renamed` (since the `fix:` commit b182a80; was `id.original`);
+consts are not supported -/
 def scStructKw (fields : List RustField) : Str := if fields.isEmpty then s%"class " else s%"case class "
 
 def scDefs : RustItem → List (Str × Str)
@@ -88,7 +90,7 @@ def scDefs : RustItem → List (Str × Str)
   | .enum e =>
     ((structVariantsOf e).map fun p => (scStructKw p.2, e.id.renamed ++ p.1.original ++ s%"Inner")) ++
     [(s%"sealed trait ", e.id.renamed), (s%"object ", e.id.renamed)]
-  | .alias a => [(s%"type ", a.id.original)]
+  | .alias a => [(s%"type ", a.id.renamed)]
   | .const _ => []
 
 /-- Go: every type name goes through `uppercase_acronyms` (`Go.acr`, which can panic on a non-ASCII
@@ -99,7 +101,7 @@ itself (which is followed by its methods and `New…` constructors); a unit enum
 followed by its `const (…)` block -/
 def goDefs (U : UnicodeOps) (cfg : Go.Cfg) : RustItem → Outcome (List (Str × Str))
   | .struct s => (Go.acr U cfg s.id.renamed).bind fun n => .ok [(s%"type ", n)]
-  | .alias a => (Go.acr U cfg a.id.original).bind fun n => .ok [(s%"type ", n)]
+  | .alias a => (Go.acr U cfg a.id.renamed).bind fun n => .ok [(s%"type ", n)]   -- (`id.original` before b182a80)
   | .const c => .ok [(s%"const ", Rename.toPascal c.id.renamed)]
   | .enum e =>
     (Outcome.mapM' (fun (p : Id × List RustField) =>
